@@ -24,7 +24,8 @@ def equiv(op, il, mres):
 
 
 def weight(op):
-    return 1
+    f = op.split()
+    return int(f[2]) if f[1] == "repeat" else 1
 
 
 def nontrivial(op, mres, tag):
@@ -45,6 +46,8 @@ def predicate(prop, op, il, mres, tag):
             return ("Relic.Props.C02 (graft, jar)", "ok rejected",
                     "a signature block grafted from another archive was accepted: " + il)
         return None
+    if f[1] == "repeat":
+        f = [f[0], "sign"] + f[3:]
     if il.startswith("FAIL") or il.startswith("panic") or il.startswith("crash"):
         thm = {"C01": "Relic.Props.C01 (sign then verify, %s)", "C03": "Relic.Props.C03 (payload preserved / valid package, %s)",
                "C08": "Relic.Props.C08 (re-sign replaces, %s)"}.get(prop, "Relic.Props.%s (%%s)" % prop) % f[2]
@@ -59,6 +62,8 @@ def predicate(prop, op, il, mres, tag):
 def matches_known(k, op, il, mres, tag):
     ident = k.get("identity", {})
     f = op.split()
+    if f[1] == "repeat":
+        return False
     if ident.get("e2e_type") != f[2]:
         return False
     rounds = len(f[5].split(","))
